@@ -26,6 +26,7 @@ FAIL_PATTERNS = [
     r'^invariant not satisfied',
     r'^assertion failed',
     r'^decreases not satisfied',
+    r'^could not prove termination',
     r'^possible arithmetic underflow/overflow',
     r'^possible division by zero',
     r'^possible bit shift underflow/overflow',
@@ -170,7 +171,7 @@ def classify(diags, build):
             kind = ('post' if msg.startswith('postcondition') else
                     'pre' if msg.startswith('precondition') else
                     'inv' if 'invariant' in msg else
-                    'dec' if msg.startswith('decreases') else
+                    'dec' if (msg.startswith('decreases') or msg.startswith('could not prove termination')) else
                     'assert' if msg.startswith('assertion') else
                     'arith' if msg.startswith('possible') else 'other')
             tags = props_near(clause['line_start'], clause['line_end'])
